@@ -498,13 +498,21 @@ func (r *Resolver) resolveOne(ctx context.Context, name, typ string) ([]any, err
 	}
 	res, ttl, err := r.resolveOneNoCache(ctx, name, typ)
 	if err != nil {
-		// Nothing is stored: the entry stays as it is, i.e. not fresh. It
-		// must stay in the cache: other lookups may be waiting on it, and
-		// what they fetch has to be found by the lookups that follow.
+		// Nothing is stored: the entry stays as it is, i.e. not fresh. It is
+		// dropped so that failing names take no room in the cache, unless
+		// another lookup has replaced it meanwhile.
+		if cur, ok := cache.Peek(key); ok && cur == v {
+			cache.Remove(key)
+		}
 		return nil, err
 	}
 	v.expiration = timeNow().Add(time.Second * time.Duration(ttl))
 	v.result = res
+	// The entry may have been dropped after a failed lookup while this one
+	// was waiting for it: the lookups that follow must find the answer.
+	if cur, ok := cache.Peek(key); !ok || cur != v {
+		cache.Add(key, v)
+	}
 	return res, nil
 }
 
